@@ -359,12 +359,62 @@ class Guards:
         raw = raw_sets[0] if len(raw_sets) == 1 else [x for x in raw_sets[0] if all(any(x[0] == y[0] and x[1] == y[1] for y in rs) for rs in raw_sets[1:])]
         return rels, raw
 
+    def post_conditions(self, call_block, depth=0):
+        """(rels, raw) that hold whenever the local call in `call_block` RETURNS: the conditions common to all
+        normal exits of the callee, with the call's arguments substituted (a checking helper that panics or loops
+        unless its arguments agree: `expect_len(n, xs.len())`)"""
+        memo = self.__dict__.setdefault("_post", {})
+        if call_block in memo:
+            return memo[call_block]
+        memo[call_block] = ([], [])
+        body = self.body
+        t = body.blocks[call_block]["term"]
+        if t["k"] != "call" or "fn" not in t or depth > 2:
+            return memo[call_block]
+        key = t["fn"].get("resolved_key") or t["fn"].get("key")
+        cb = self.ev.facts.bodies.get(key)
+        if cb is None or key in self.ev.opaque:
+            return memo[call_block]
+        # only worth it for callees that can fail to return (a panic / abort edge): otherwise nothing is learnt
+        if not any(bb["term"]["k"] == "call" and bb["term"].get("t") is None for bb in cb.blocks) and \
+                not any(bb["term"]["k"] == "assert" for bb in cb.blocks):
+            return memo[call_block]
+        try:
+            args = [self.ev.operand(self.env, a, (call_block, None)) for a in t["args"]]
+            cenv = self.ev.inline_env(cb, {i + 1: x for i, x in enumerate(args)}, self.env.depth + 1, self.env.path + ((body.key, call_block),))
+            cg = Guards(self.ev, cenv.body, cenv)
+            exits = cenv.body.exits()
+            if not exits:
+                return memo[call_block]
+            rel_sets, raw_sets = [], []
+            for xb in exits:
+                r, w = cg.relations_at(xb, depth + 1)
+                rel_sets.append(set(r))
+                raw_sets.append([x for x in w if isinstance(x[1], bool)])
+            rels = list(set.intersection(*rel_sets))
+            raw = [x for x in raw_sets[0] if all(any(x[0] == y[0] and x[1] == y[1] for y in rs) for rs in raw_sets[1:])]
+            memo[call_block] = (rels, raw)
+        except RecursionError:
+            pass
+        return memo[call_block]
+
     def relations_at(self, block, depth=0):
         """canonical relations that hold on every path to `block` (from dominating
         bool switches, and — interprocedurally — from the success of local callees whose
-        result is tested on a dominating edge) plus raw (term, truth) pairs"""
+        result is tested on a dominating edge, and from local callees that only return when a
+        condition on their arguments holds) plus raw (term, truth) pairs"""
         rels = []
         raw = []
+        if depth <= 2:
+            body = self.body
+            for cbk in sorted(body.live_blocks()):
+                if cbk == block or not body.dominates(cbk, block):
+                    continue
+                t = body.blocks[cbk]["term"]
+                if t["k"] == "call" and "fn" in t and (t["fn"].get("resolved_key") or t["fn"].get("key")) in self.ev.facts.bodies:
+                    r2, w2 = self.post_conditions(cbk, depth)
+                    rels.extend(r2)
+                    raw.extend(w2)
         for sw, vals in self.dominating_conditions(block):
             t = sw["term"]
             if t[0] == "discr":
